@@ -3,6 +3,7 @@ package main
 import (
 	"encoding/json"
 	"fmt"
+	"strings"
 
 	"github.com/fxamacker/cbor"
 	gbig "github.com/privacybydesign/gabi/big"
@@ -334,7 +335,8 @@ func suiteC10(s *Suite, rng *Rng, tier string) {
 						if pfrom < 0 || cut < 0 || cut > last {
 							continue
 						}
-						for _, corrupt := range []string{"", "E", "index"} {
+						for _, corrupt := range []string{"", "E", "index", "+product", "E+product"} {
+							withProduct := strings.HasSuffix(corrupt, "product")
 							u := cloneUpdate(base)
 							u.Verify(kp.Pk) // the receiver holds a verified update
 							evs := []*revocation.Event{}
@@ -342,14 +344,27 @@ func suiteC10(s *Suite, rng *Rng, tier string) {
 								evs = append(evs, cloneEvent(e))
 							}
 							switch corrupt {
-							case "E":
+							case "E", "E+product":
 								evs[0].E.Add(evs[0].E, bi(2))
 							case "index":
 								evs[len(evs)-1].Index++
 							}
 							el := revocation.NewEventList(evs...)
-							in := L{dumpUpdate(u, kp), dumpEvents(evs), nil}
+							var elProduct V
+							if withProduct {
+								// as received over the wire by a client that asked for the product of the revoked values
+								js, _ := json.Marshal(el)
+								el = &revocation.EventList{ComputeProduct: true}
+								if err := json.Unmarshal(js, el); err != nil {
+									panic(err)
+								}
+								evs = el.Events
+								_, _, pr := el.VerifFlags()
+								elProduct = pr
+							}
+							in := L{dumpUpdate(u, kp), dumpEvents(evs), elProduct}
 							beforeEvents := S(dumpEvents(u.Events))
+							beforeProduct := S(dumpProductCache(u))
 							res := 0
 							func() {
 								defer func() {
@@ -379,7 +394,24 @@ func suiteC10(s *Suite, rng *Rng, tier string) {
 							if res != 0 && S(dumpEvents(u.Events)) != beforeEvents {
 								s.Violate("C10:failed-prepend-changed-update", "a failed Prepend modified the update", desc)
 							}
-							if res == 0 && corrupt != "" && S(dumpEvents(u.Events)) != beforeEvents {
+							if res != 0 && S(dumpProductCache(u)) != beforeProduct {
+								s.Violate("C10:failed-prepend-changed-update", "a failed Prepend modified the update's cached product", desc)
+							}
+							if res == 0 && withProduct && corrupt == "+product" && pfrom >= 1 {
+								// the merged update brings a witness from before the prepended events to the newest accumulator, like
+								// the update built directly from the authentic events
+								wa, wb := h.issue(pfrom-1, bi(7919)), h.issue(pfrom-1, bi(7919))
+								e1 := wa.Update(kp.Pk, u)
+								lo := pfrom
+								e2 := wb.Update(kp.Pk, h.window(lo, to))
+								if (e1 == nil) != (e2 == nil) || e2 != nil || wa.U.Cmp(wb.U) != 0 {
+									s.Violate("C10:prepended-update-differs", fmt.Sprintf("witness update through the prepended update (%v) differs from the direct one (%v)", e1, e2), desc)
+								}
+							}
+							if res == 0 && corrupt == "E+product" {
+								s.Violate("C10:altered-events-prepended", "Prepend accepted a re-read event list with an altered revocation value", desc)
+							}
+							if res == 0 && corrupt != "" && !withProduct && S(dumpEvents(u.Events)) != beforeEvents {
 								s.Violate("C10:altered-events-prepended", "Prepend accepted altered events", desc)
 							}
 							if res == 0 {
